@@ -10,11 +10,11 @@ while iterating).
 import ast
 from ..fn import World
 from ..index import AnalysisError, dotted
-from ..astutil import text, short, endswith, calls_in
+from ..astutil import text, short, endswith, calls_in, walk_no_nested
 from .. import events as E
 from . import _h_C as H
 from . import c05
-from .c11 import _single, _owner
+from .c11 import _single, _owner, _stmt_of as c11_stmt_of
 
 EXPLANATION = (
   "Decides that the probe key and the index key of a lookup are normalised and typed alike: "
@@ -34,7 +34,10 @@ EXPLANATION = (
 def check(run, repo, tier):
   V = H.guarded_views
   V(run, repo, r1_key_normalisation)
-  V(run, repo, r2_index_maintenance)
+  V(run, repo, r2_c05_lookup_index)
+  V(run, repo, r2_simple_update)
+  V(run, repo, r2_contains_update)
+  V(run, repo, r2_removal)
   V(run, repo, r3_lookup_one)
   V(run, repo, r4_no_captured_columns)
   from ._extra import c13_reset_all_keys, c14_sortkey_total_order
@@ -188,116 +191,160 @@ def r1_key_normalisation(run, w):
   for ci in subs:
     m = ci.methods["get_new_keys_iter"]
     fn = w.fn_of(m)
+    flow = H.Flow(fn)
     rec = m.params()[1]
-    rets = H.returns_of(m.node)
-    if len(rets) != 1:
+    cases = [c for c in H.return_cases(fn.node) if c.value is not None]
+    if len(cases) != 1:
       raise AnalysisError("%s: expected a single return" % m.qualname)
-    v = rets[0].value
+    rn = [x.id for x in fn.cfg.nodes if x.stmt is cases[0].stmt][0]
+    v = H.resolve(flow, cases[0].value, rn)
     ok = False
     what = short(v)
+    def key_columns(it):
+      return _xname(fn, H.strip_passthrough(it)) == "self._col_ids_tuple"
     if isinstance(v, ast.List) and len(v.elts) == 1:
-      e = v.elts[0]
-      if isinstance(e, ast.Call) and dotted(e.func) == "tuple" and len(e.args) == 1 and \
-          isinstance(e.args[0], (ast.GeneratorExp, ast.ListComp)):
-        g = e.args[0]
-        ok = len(g.generators) == 1 and not g.generators[0].ifs and \
-            text(g.generators[0].iter) == "self._col_ids_tuple" and _is_extract(g.elt) and \
-            text(g.elt.args[0]) == "getattr(%s, %s)" % (rec, text(g.generators[0].target))
+      e = H.resolve(flow, v.elts[0], rn)
+      comps = H.elements(fn, flow, e.args[0], flow.node_of(e)) \
+          if isinstance(e, ast.Call) and dotted(e.func) == "tuple" and len(e.args) == 1 else None
+      ok = bool(comps) and len(comps) == 1
+      for el in comps or []:
+        ok = ok and len(el.gens) == 1 and not el.conds and key_columns(el.gens[0][1]) and \
+            _is_extract(el.elt) and \
+            text(flow.du.inline(el.elt.args[0], stop=(text(el.gens[0][0]),))) == \
+            "getattr(%s, %s)" % (rec, text(el.gens[0][0]))
     elif isinstance(v, ast.Call) and endswith(dotted(v.func), "product") and \
         len(v.args) == 1 and isinstance(v.args[0], ast.Starred):
-      groups = text(v.args[0].value)
-      loops = [s for s in m.node.body if isinstance(s, ast.For) and
-               text(s.iter) == "self._col_ids_tuple"]
-      if len(loops) == 1:
-        last = loops[0].body[-1]
-        ok = isinstance(last, ast.Expr) and isinstance(last.value, ast.Call) and \
-            text(last.value.func) == groups + ".append" and len(last.value.args) == 1
+      groups = v.args[0].value
+      els = H.elements(fn, flow, groups, flow.node_of(v))
+      ok = bool(els) and len(els) == 1
+      for el in els or []:
+        a = H.resolve(flow, el.elt, el.nid)
+        ok = ok and len(el.gens) == 1 and not el.conds and key_columns(el.gens[0][1]) and \
+            isinstance(a, (ast.ListComp, ast.GeneratorExp, ast.SetComp)) and \
+            len(a.generators) == 1 and not a.generators[0].ifs and _is_extract(a.elt) and \
+            text(a.elt.args[0]) == text(a.generators[0].target)
         if ok:
-          a = last.value.args[0]
-          ok = isinstance(a, (ast.ListComp, ast.GeneratorExp)) and len(a.generators) == 1 and \
-              not a.generators[0].ifs and _is_extract(a.elt) and \
-              text(a.elt.args[0]) == text(a.generators[0].target)
           # the cell is read from the record for this key column
-          reads = [c for c in calls_in(loops[0].body) if dotted(c.func) == "getattr" and
-                   text(c.args[0]) == rec]
-          ok = ok and len(reads) == 1 and isinstance(reads[0].args[1], ast.Call) and \
+          loop = [s for s in walk_no_nested(fn.node) if isinstance(s, ast.For) and
+                  s.iter is el.gens[0][1]]
+          reads = [c for c in calls_in(loop[0].body) if dotted(c.func) == "getattr" and
+                   len(c.args) == 2 and text(c.args[0]) == rec] if loop else []
+          ok = len(reads) == 1 and isinstance(reads[0].args[1], ast.Call) and \
               dotted(reads[0].args[1].func) == "extract_column_id" and \
-              text(reads[0].args[1].args[0]) == text(loops[0].target)
-        what = "for col_id in self._col_ids_tuple: %s.append([_extract(v) for v in group]); " \
-            "product(*%s)" % (groups, groups)
+              text(reads[0].args[1].args[0]) == text(el.gens[0][0])
+      what = "for col_id in self._col_ids_tuple: groups.append([_extract(v) for v in group]); " \
+          "product(*groups)"
     else:
       raise AnalysisError("%s: unrecognised key construction %s" % (m.qualname, short(v)))
     run.ob(R1, m.qualname, what, "every component of an index key is the cell of the "
            "corresponding key column passed through _extract, one component per key column",
-           ok, fi=m, node=rets[0])
+           ok, fi=m, node=cases[0].stmt)
   # (d) probe side typing in Table.lookup_records
   fn = w.fn("table.Table.lookup_records")
   flow = H.Flow(fn)
   kw = fn.node.args.kwarg.arg if fn.node.args.kwarg else None
-  loops = [s for s in fn.node.body if isinstance(s, ast.For) and
-           text(s.iter) in ("sorted(%s)" % kw, kw, "list(%s)" % kw, "%s.keys()" % kw,
-                            "sorted(%s.keys())" % kw)]
-  lp = _single(loops, "lookup_records: loop over the sorted keyword names")
-  cv = text(lp.target)
-  apps = [s.value for s in lp.body if isinstance(s, ast.Expr) and isinstance(s.value, ast.Call)
-          and isinstance(s.value.func, ast.Attribute) and s.value.func.attr == "append"]
-  ok = len(apps) == 2 and all(s.value in apps for s in lp.body[-2:])
-  KEY = IDS = VAL = None
+  lm = [(n, c) for (n, c, nm) in fn.calls() if nm == "self._get_lookup_map"]
+  dl = [(n, c) for (n, c, nm) in H.calls(fn) if endswith(nm, "do_lookup")]
+  (lmn, lmc) = _single(lm, "lookup_records: _get_lookup_map call")
+  (dln, dlc) = _single(dl, "lookup_records: do_lookup call")
+  if not lmc.args or not dlc.args:
+    raise AnalysisError("lookup_records: index / probe argument not found")
+  ids_els = H.elements(fn, flow, lmc.args[0], lmn.id)
+  key_els = H.elements(fn, flow, dlc.args[0], dln.id)
+  def odd_mutation(arg, nid):
+    """An in-place edit other than append of the list an argument is built from."""
+    for r in flow.roots(arg, nid):
+      st = flow.cfg.nodes[r.nid].stmt if r.nid is not None else None
+      if isinstance(st, ast.Assign) and st.value is r.node and \
+          isinstance(st.targets[0], ast.Name):
+        X = st.targets[0].id
+        for c in calls_in(fn.node):
+          if isinstance(c.func, ast.Attribute) and isinstance(c.func.value, ast.Name) and \
+              c.func.value.id == X and c.func.attr in ("insert", "extend", "pop", "remove",
+                                                       "sort", "reverse"):
+            return short(c)
+    return None
+  odd = odd_mutation(lmc.args[0], lmn.id) or odd_mutation(dlc.args[0], dln.id)
+  if (ids_els is None or key_els is None) and not odd:
+    raise AnalysisError("lookup_records: cannot follow how the key / column ids are built")
+  ok = not odd and len(ids_els) == 1 and len(key_els) == 1
+  ie = ke = None
   if ok:
-    for a in apps:
-      if text(a.args[0]) == cv:
-        IDS = text(a.func.value)
+    ie, ke = ids_els[0], key_els[0]
+    ok = len(ie.gens) == 1 and len(ke.gens) == 1 and ie.gens[0][1] is ke.gens[0][1] and \
+        not ie.conds and not ke.conds and isinstance(ie.gens[0][0], ast.Name) and \
+        text(H.strip_passthrough(ie.gens[0][1])) in (kw, "%s.keys()" % kw) and \
+        isinstance(ie.gens[0][1], ast.Call) and dotted(ie.gens[0][1].func) == "sorted"
+  run.ob(R1, fn.qualname, "for col_id in sorted(%s): ...; key.append(value); col_ids.append(col_id)"
+         % kw, "each probe value is appended together with its column id in the same "
+         "iteration, unconditionally, so key components line up with the index's key columns",
+         ok, witness=odd, fi=fn.fi, node=lmc)
+  conv_ok = cont_ok = False
+  if ok:
+    cv = ie.gens[0][0].id
+    def is_contains(t):
+      return isinstance(t, ast.Call) and dotted(t.func) == "isinstance" and len(t.args) == 2 and \
+          endswith(dotted(t.args[1]), "_Contains")
+    vcases = H.value_cases(fn, flow, ke.elt, ke.nid)
+    icases = H.value_cases(fn, flow, ie.elt, ie.nid)
+    raw = "%s[%s]" % (kw, cv)
+    def probe(e):
+      """e is the probe value as passed by the caller: kwargs[col_id] (through locals)."""
+      return any(text(c.value) == raw or
+                 (isinstance(c.value, ast.Name) and text(flow.du.inline(c.value)) == raw)
+                 for c in H.value_cases(fn, flow, e, flow.node_of(e))) \
+          if isinstance(e, ast.Name) else text(e) == raw
+    n_conv = n_cont = n_other = 0
+    for c in vcases:
+      v = c.value
+      contains = [p for (t, p) in c.atoms if is_contains(t)]
+      if isinstance(v, ast.Attribute) and v.attr == "value" and contains == [True]:
+        n_cont += 1
+        continue
+      good = False
+      if isinstance(v, ast.Call) and isinstance(v.func, ast.Attribute) and \
+          v.func.attr == "_convert_raw_value" and len(v.args) == 1 and \
+          isinstance(v.args[0], ast.Call) and isinstance(v.args[0].func, ast.Attribute) and \
+          v.args[0].func.attr == "convert" and len(v.args[0].args) == 1 and \
+          text(v.func.value) == text(v.args[0].func.value) and contains == [False]:
+        col = H.resolve(flow, v.func.value, flow.node_of(v))
+        good = isinstance(col, ast.Call) and _xname(fn, col.func) == "self.get_column" and \
+            [text(a) for a in col.args] == [cv]
+      if good:
+        n_conv += 1
       else:
-        KEY = text(a.func.value)
-        VAL = text(a.args[0])
-    ok = KEY is not None and IDS is not None
-  run.ob(R1, fn.qualname, "for col_id in sorted(%s): ...; %s.append(value); %s.append(col_id)"
-         % (kw, KEY, IDS), "each probe value is appended together with its column id as the "
-         "last step of the same iteration, so key components line up with the index's key "
-         "columns", ok,
-         fi=fn.fi, node=lp)
-  conv_ok = False
-  cont_ok = False
-  for s in (lp.body if VAL is not None else []):
-    if isinstance(s, ast.If) and isinstance(s.test, ast.Call) and \
-        dotted(s.test.func) == "isinstance" and endswith(dotted(s.test.args[1]), "_Contains"):
-      # CONTAINS branch: the marker moves to the column id, the value is unwrapped
-      b = [x for x in s.body if isinstance(x, ast.Assign)]
-      cont_ok = any(text(x.targets[0]) == cv and text(x.value) == "%s._replace(value=%s)"
-                    % (VAL, cv) for x in b) and \
-          any(text(x.targets[0]) == VAL and text(x.value) == VAL + ".value" for x in b)
-      o = [x for x in s.orelse if isinstance(x, ast.Assign)]
-      cols = [x for x in o if isinstance(x.value, ast.Call) and
-              text(x.value.func) == "self.get_column" and
-              [text(a) for a in x.value.args] == [cv]]
-      if len(cols) == 1:
-        col = text(cols[0].targets[0])
-        conv_ok = any(text(x.targets[0]) == VAL and
-                      text(x.value) == "%s._convert_raw_value(%s.convert(%s))" % (col, col, VAL)
-                      for x in o)
+        n_other += 1
+    conv_ok = n_conv >= 1 and n_other == 0
+    moved = [c for c in icases if isinstance(c.value, ast.Call) and
+             isinstance(c.value.func, ast.Attribute) and c.value.func.attr == "_replace" and
+             [(k.arg, text(k.value)) for k in c.value.keywords] == [("value", cv)] and
+             [p for (t, p) in c.atoms if is_contains(t)] == [True]]
+    cont_ok = n_cont >= 1 and len(moved) >= 1
   run.ob(R1, fn.qualname, "value = col._convert_raw_value(col.convert(value))  (col = "
          "self.get_column(col_id))", "a plain probe value is converted to the looked-up column's "
          "type and rich form, the form in which the index stores that column's cells", conv_ok,
-         fi=fn.fi, node=lp)
+         fi=fn.fi, node=lmc)
   run.ob(R1, fn.qualname, "CONTAINS: col_id = value._replace(value=col_id); value = value.value",
          "a CONTAINS probe moves its marker to the column id (so the index expands that "
-         "column's lists) and probes with the bare element", cont_ok, fi=fn.fi, node=lp)
-  lm = [(n, c) for (n, c, nm) in fn.calls() if nm == "self._get_lookup_map"]
-  dl = [(n, c) for (n, c, nm) in fn.calls() if isinstance(c.func, ast.Attribute) and
-        c.func.attr == "do_lookup"]
-  ok = len(lm) == 1 and len(dl) == 1
-  if ok:
-    r1 = flow.roots(lm[0][1].args[0], lm[0][0].id)
-    r2 = flow.roots(dl[0][1].args[0], dl[0][0].id)
-    def is_list(rs, name):
-      return bool(rs) and all(r.kind == "lit" and isinstance(r.node, ast.List) and not r.path
-                              for r in rs) and name is not None
-    # both are tuple(<the list built in the loop>)
-    ok = is_list(r1, IDS) and is_list(r2, KEY) and \
-        _tuple_of(fn, lm[0][1].args[0], IDS) and _tuple_of(fn, dl[0][1].args[0], KEY)
-  run.ob(R1, fn.qualname, "self._get_lookup_map(tuple(%s)) ... do_lookup(tuple(%s))" % (IDS, KEY),
+         "column's lists) and probes with the bare element", cont_ok, fi=fn.fi, node=lmc)
+  def tuple_of_list(arg, nid):
+    rs = flow.roots(arg, nid)
+    return bool(rs) and all(r.kind == "lit" and isinstance(r.node, ast.List) and not r.path
+                            for r in rs)
+  ok = tuple_of_list(lmc.args[0], lmn.id) and tuple_of_list(dlc.args[0], dln.id) and \
+      not _same_list(flow, lmc.args[0], lmn.id, dlc.args[0], dln.id)
+  run.ob(R1, fn.qualname, "self._get_lookup_map(tuple(col_ids)) ... do_lookup(tuple(key))",
          "the index is chosen by the column ids collected in the loop and probed with the values "
          "collected alongside", ok, fi=fn.fi)
+
+
+def _xname(fn, e):
+  return fn.name(e) or text(e)
+
+
+def _same_list(flow, a, an, b, bn):
+  ra, rb = flow.roots(a, an), flow.roots(b, bn)
+  return any(x.node is y.node for x in ra for y in rb)
 
 
 def _tuple_of(fn, expr, listname):
@@ -314,43 +361,62 @@ def _tuple_of(fn, expr, listname):
 
 # --------------------------------------------------------------------------------------- R2
 
-def r2_index_maintenance(run, w):
-  R2 = run.rule("C13-R2", "the lookup index follows the data: old key dropped on every path on "
-                "which the key changed, affected keys reported and invalidated, cached orders "
-                "consistent (C05-R6)", floor=13)
+R2_DESC = ("the lookup index follows the data: old key dropped on every path on which the key "
+           "changed, affected keys reported and invalidated, cached orders consistent (C05-R6)")
+
+
+def r2_c05_lookup_index(run, w):
+  run.rule("C13-R2", R2_DESC, floor=13)
   c05.r6_lookup_index(H.RuleAlias(run, {"C05-R6": "C13-R2"}), w)
+
+
+def r2_simple_update(run, w):
+  R2 = run.rule("C13-R2", R2_DESC, floor=13)
   # SimpleLookupMapping.update_record
   fn = w.fn("lookup.SimpleLookupMapping.update_record")
   flow = H.Flow(fn)
   xcfg = fn.xcfg
   rec = fn.fi.params()[1]
   row = rec + "._row_id"
-  olds = [s for s in fn.node.body if isinstance(s, ast.Assign) and
-          isinstance(s.value, ast.Call) and text(s.value.func) == "self._get_mapped_key" and
-          [text(a) for a in s.value.args] == [row]]
-  news = [s for s in fn.node.body if isinstance(s, ast.Assign) and
-          isinstance(s.value, ast.Subscript) and isinstance(s.value.value, ast.Call) and
-          text(s.value.value.func) == "self.get_new_keys_iter" and
-          [text(a) for a in s.value.value.args] == [rec] and text(s.value.slice) == "0"]
-  if len(olds) != 1 or len(news) != 1:
+  inl = lambda e: text(flow.du.inline(e))
+  OLD_T = "self._get_mapped_key(%s)" % row
+  NEW_T = "self.get_new_keys_iter(%s)[0]" % rec
+  news = [s for s in walk_no_nested(fn.node) if isinstance(s, ast.Assign) and
+          len(s.targets) == 1 and isinstance(s.targets[0], ast.Name) and inl(s.value) == NEW_T]
+  has_old = any(inl(c) == OLD_T for c in calls_in(fn.node))
+  if not has_old or len(news) != 1:
     raise AnalysisError("SimpleLookupMapping.update_record: old/new key not found")
-  OLD, NEW = text(olds[0].targets[0]), text(news[0].targets[0])
-  early = [n for n in xcfg.nodes if n.kind == "if" and isinstance(n.stmt.test, ast.Compare) and
-           isinstance(n.stmt.test.ops[0], ast.Eq) and
-           {text(n.stmt.test.left), text(n.stmt.test.comparators[0])} == {OLD, NEW} and
-           n.stmt.body and isinstance(n.stmt.body[-1], ast.Return)]
-  run.ob(R2, fn.qualname, "if %s == %s: return set()" % (NEW, OLD),
+  NEW = news[0].targets[0].id
+  is_old = lambda e: inl(e) == OLD_T
+  is_new = lambda e: isinstance(e, ast.Name) and e.id == NEW or inl(e) == NEW_T
+  def unchanged(t, p):
+    """Atom (t, p) says: the new key equals the old key."""
+    if not (isinstance(t, ast.Compare) and len(t.ops) == 1):
+      return False
+    l, r = t.left, t.comparators[0]
+    if not ((is_old(l) and is_new(r)) or (is_new(l) and is_old(r))):
+      return False
+    return (isinstance(t.ops[0], ast.Eq) and p is True) or \
+        (isinstance(t.ops[0], ast.NotEq) and p is False)
+  cases = [c for c in H.return_cases(fn.node)]
+  same = [c for c in cases if any(unchanged(t, p) for (t, p) in c.atoms)]
+  changed = [c for c in cases if c not in same]
+  def empty_set(e):
+    e = flow.du.inline(e) if e is not None else None
+    return isinstance(e, ast.Call) and dotted(e.func) in ("set", "frozenset") and not e.args
+  run.ob(R2, fn.qualname, "if new_key == old_key: return set()",
          "nothing is reported (and nothing done) only when the key is unchanged",
-         len(early) == 1, fi=fn.fi)
+         bool(same) and all(empty_set(c.value) for c in same), fi=fn.fi)
+  def row_and(args, second):
+    return len(args) == 2 and inl(args[0]) == row and second(args[1])
   ins = {n.id for (n, c, nm) in fn.calls(xcfg) if nm == "self._row_key_map.insert" and
-         [text(a) for a in c.args] == [row, NEW]}
+         row_and(c.args, is_new)}
   rem = {n.id for (n, c, nm) in fn.calls(xcfg) if nm == "self._row_key_map.remove" and
-         [text(a) for a in c.args] == [row, OLD]}
+         row_and(c.args, is_old)}
   if not ins:
     raise AnalysisError("SimpleLookupMapping.update_record: insert of the new key not found")
   # every way out of the insert -- completing (the single-valued right bin overwrites the old
   # key) or raising -- leaves the row no longer mapped under the old key
-  handlers = [n for n in xcfg.nodes if n.kind == "handler"]
   ok = True
   wit = None
   for i in ins:
@@ -362,76 +428,85 @@ def r2_index_maintenance(run, w):
       if xcfg.exit.id in r:
         ok = False
         wit = xcfg.describe_path(xcfg.path(dst, {xcfg.exit.id}, removed=rem))
-  run.ob(R2, fn.qualname, "except TypeError: self._row_key_map.remove(%s, %s)" % (row, OLD),
+  run.ob(R2, fn.qualname, "except TypeError: self._row_key_map.remove(%s, old_key)" % row,
          "when the new key cannot be inserted (TwoWayMap.insert then restores the old mapping) "
          "every path on which the function still returns normally removes the row's entry "
          "under its old key", ok, witness=wit, fi=fn.fi)
-  rets = [s for s in H.returns_of(fn.node) if not any(s in e.stmt.body for e in early)]
-  okr = bool(rets)
-  for r in rets:
-    v = r.value
-    if isinstance(v, ast.Name):
-      # result held in a local: look at what it was built from
-      rs = flow.roots(v, flow.node_of(v))
-      if len(rs) == 1 and rs[0].kind in ("comp", "lit") and not rs[0].path:
-        v = rs[0].node
-    names = {x.id for x in ast.walk(v) if isinstance(x, ast.Name)} if v is not None else set()
-    if OLD not in names:
-      okr = False
-    elif isinstance(v, ast.SetComp):
+  okr = bool(changed)
+  for c in changed:
+    rn = [x.id for x in fn.cfg.nodes if x.stmt is c.stmt][0]
+    v = H.resolve(flow, c.value, rn) if c.value is not None else None
+    if isinstance(v, ast.SetComp):
       g = v.generators[0]
-      okr = okr and isinstance(g.iter, (ast.Tuple, ast.List, ast.Set)) and \
-          OLD in [text(e) for e in g.iter.elts] and text(v.elt) == text(g.target) and \
-          all(text(c) == "%s is not None" % text(g.target) for c in g.ifs)
+      okr = okr and len(v.generators) == 1 and isinstance(g.iter, (ast.Tuple, ast.List, ast.Set)) \
+          and any(is_old(e) for e in g.iter.elts) and text(v.elt) == text(g.target) and \
+          all(text(t) == "%s is not None" % text(g.target) for t in g.ifs)
     elif isinstance(v, ast.Set):
-      okr = okr and OLD in [text(e) for e in v.elts]
+      okr = okr and any(is_old(e) for e in v.elts)
+    elif v is None or not any(is_old(x) for x in ast.walk(v) if isinstance(x, ast.expr)):
+      okr = False
     else:
       raise AnalysisError("SimpleLookupMapping.update_record: unrecognised result %s" % short(v))
-  run.ob(R2, fn.qualname, "return {k for k in (%s, %s) if k is not None}" % (OLD, NEW),
+  run.ob(R2, fn.qualname, "return {k for k in (old_key, new_key) if k is not None}",
          "the old key is reported as affected whenever there was one, so lookups that returned "
          "the row under it are recomputed", okr, fi=fn.fi)
+
+
+def r2_contains_update(run, w):
+  R2 = run.rule("C13-R2", R2_DESC, floor=13)
   # ContainsLookupMapping.update_record
   fn = w.fn("lookup.ContainsLookupMapping.update_record")
+  flow = H.Flow(fn)
   rec = fn.fi.params()[1]
-  news = [s for s in fn.node.body if isinstance(s, ast.Assign) and
-          text(s.value) == "set(self.get_new_keys_iter(%s))" % rec]
-  olds = [s for s in fn.node.body if isinstance(s, ast.Assign) and
-          isinstance(s.value, ast.Call) and text(s.value.func) == "self.get_mapped_keys"]
-  if len(news) != 1 or len(olds) != 1:
+  row = rec + "._row_id"
+  inl = lambda e: text(flow.du.inline(e))
+  NEW_T = "set(self.get_new_keys_iter(%s))" % rec
+  OLD_T = "self.get_mapped_keys(%s)" % row
+  texts = {inl(c) for c in calls_in(fn.node)}
+  if NEW_T not in texts or OLD_T not in texts:
     raise AnalysisError("ContainsLookupMapping.update_record: old/new keys not found")
-  OLD, NEW = text(olds[0].targets[0]), text(news[0].targets[0])
-  rowv = text(olds[0].value.args[0])
   def loop_ok(meth, a, b):
-    for s in fn.node.body:
-      if isinstance(s, ast.For) and isinstance(s.iter, ast.BinOp) and \
-          isinstance(s.iter.op, ast.Sub) and text(s.iter.left) == a and \
-          text(s.iter.right) == b:
-        return any(text(c.func) == "self._row_key_map." + meth and
-                   [text(x) for x in c.args] == [rowv, text(s.target)]
-                   for c in calls_in(s.body))
+    for s in walk_no_nested(fn.node):
+      if isinstance(s, ast.For) and isinstance(s.target, ast.Name) and \
+          inl(s.iter) == "%s - %s" % (a, b):
+        g = [x for x in H.guards_of(fn.node, s)]
+        inner = [x for c in calls_in(s.body) for x in
+                 (H.guards_of(fn.node, c11_stmt_of(fn.node, c)) if
+                  text(c.func) == "self._row_key_map." + meth else [])
+                 if H._synth_within(x[0], s)]
+        return not g and not inner and \
+            any(_xname(fn, c.func) == "self._row_key_map." + meth and len(c.args) == 2 and
+                inl(c.args[0]) == row and text(c.args[1]) == s.target.id
+                for c in calls_in(s.body))
     return False
-  run.ob(R2, fn.qualname, "for k in %s - %s: remove(row, k); for k in %s - %s: insert(row, k)"
-         % (OLD, NEW, NEW, OLD), "keys the row no longer has are dropped and keys it gained are "
-         "added", loop_ok("remove", OLD, NEW) and loop_ok("insert", NEW, OLD), fi=fn.fi)
-  rets = H.returns_of(fn.node)
-  ok = len(rets) == 1 and isinstance(rets[0].value, ast.BinOp) and \
-      isinstance(rets[0].value.op, ast.BitXor) and \
-      {text(rets[0].value.left), text(rets[0].value.right)} == {OLD, NEW}
-  run.ob(R2, fn.qualname, "return %s ^ %s" % (NEW, OLD), "exactly the keys whose row set changed "
+  run.ob(R2, fn.qualname, "for k in old - new: remove(row, k); for k in new - old: insert(row, k)",
+         "keys the row no longer has are dropped and keys it gained are "
+         "added", loop_ok("remove", OLD_T, NEW_T) and loop_ok("insert", NEW_T, OLD_T), fi=fn.fi)
+  cases = [c for c in H.return_cases(fn.node)]
+  ok = len(cases) == 1 and cases[0].value is not None and not cases[0].atoms and \
+      inl(cases[0].value) in ("%s ^ %s" % (NEW_T, OLD_T), "%s ^ %s" % (OLD_T, NEW_T))
+  run.ob(R2, fn.qualname, "return new_keys ^ old_keys", "exactly the keys whose row set changed "
          "are reported as affected", ok, fi=fn.fi)
+
+
+def r2_removal(run, w):
+  R2 = run.rule("C13-R2", R2_DESC, floor=13)
   # removal drops every mapped key
   fn = w.fn("lookup.BaseLookupMapping.remove_row_id")
+  flow = H.Flow(fn)
   p = fn.fi.params()[1]
   ok = False
-  for s in fn.node.body:
-    if isinstance(s, ast.For):
-      src = H.Flow(fn).roots(s.iter, H.Flow(fn).node_of(s.iter))
-      ok = bool(src) and all(r.kind == "call" and text(r.node.func) == "self.get_mapped_keys" and
-                             [text(a) for a in r.node.args] == [p] for r in src) and \
-          any(text(c.func) == "self._row_key_map.remove" and
-              [text(x) for x in c.args] == [p, text(s.target)] for c in calls_in(s.body)) and \
-          not any(isinstance(x, (ast.If, ast.Break, ast.Continue)) for b in s.body
-                  for x in ast.walk(b))
+  for s in walk_no_nested(fn.node):
+    if isinstance(s, ast.For) and isinstance(s.target, ast.Name):
+      src = flow.roots(s.iter, flow.node_of(s.iter))
+      ok = ok or (
+        bool(src) and all(r.kind == "call" and _xname(fn, r.node.func) == "self.get_mapped_keys"
+                          and [text(a) for a in r.node.args] == [p] and not r.path
+                          for r in src) and
+        any(_xname(fn, c.func) == "self._row_key_map.remove" and
+            [text(x) for x in c.args] == [p, s.target.id] for c in calls_in(s.body)) and
+        not any(isinstance(x, (ast.If, ast.Break, ast.Continue, ast.IfExp)) for b in s.body
+                for x in ast.walk(b)) and not H.guards_of(fn.node, s))
   run.ob(R2, fn.qualname, "for k in self.get_mapped_keys(%s): self._row_key_map.remove(%s, k)"
          % (p, p), "a removed row leaves the index under every key it was mapped to", ok,
          fi=fn.fi)
@@ -450,10 +525,10 @@ def r2_index_maintenance(run, w):
       if unk and not bad:
         raise AnalysisError("%s: cannot decide whether %s is a copy" % (m.qualname,
                                                                         short(n.stmt.value)))
-      run.ob(R2, m.qualname, short(n.stmt), "the set of mapped keys handed out is a copy, not "
-             "the set stored in the two-way map (callers remove entries while iterating it)",
-             bool(kinds) and not bad, witness="; ".join("%s: %r" % k for k in bad) or None,
-             fi=m, node=n.stmt)
+      run.ob(R2, m.qualname, "return <copy of the mapped keys>", "the set of mapped keys handed "
+             "out is a copy, not the set stored in the two-way map (callers remove entries while "
+             "iterating it)", bool(kinds) and not bad,
+             witness="; ".join("%s: %r" % k for k in bad) or None, fi=m, node=n.stmt)
 
 
 # --------------------------------------------------------------------------------------- R3
@@ -461,56 +536,64 @@ def r2_index_maintenance(run, w):
 def r3_lookup_one(run, w):
   R3 = run.rule("C13-R3", "lookup_one_record = lookup_records(...).get_one(); get_one yields the "
                 "first row or the empty record", floor=3)
+  def sole_return(fn):
+    flow = H.Flow(fn)
+    cases = [c for c in H.return_cases(fn.node)]
+    if len(cases) != 1 or cases[0].value is None or cases[0].atoms:
+      return None
+    return text(flow.du.inline(cases[0].value))
   fn = w.fn("table.Table.lookup_one_record")
   kw = fn.node.args.kwarg.arg if fn.node.args.kwarg else None
-  rets = H.returns_of(fn.node)
   du = H.Flow(fn).du
-  ok = len(rets) == 1 and isinstance(rets[0].value, ast.Call) and \
-      text(rets[0].value) == "self.lookup_records(**%s).get_one()" % kw and \
+  ok = sole_return(fn) == "self.lookup_records(**%s).get_one()" % kw and \
       not du.defs.get(kw) and not du.muts.get(kw)
   run.ob(R3, fn.qualname, "return self.lookup_records(**%s).get_one()" % kw,
          "lookupOne sees exactly the rows and the order lookupRecords would return", ok,
          fi=fn.fi)
   ut = w.fn("table.UserTable.lookupOne")
   kw2 = ut.node.args.kwarg.arg if ut.node.args.kwarg else None
-  rets = H.returns_of(ut.node)
-  ok = len(rets) == 1 and text(rets[0].value) == "self.table.lookup_one_record(**%s)" % kw2
+  ok = sole_return(ut) == "self.table.lookup_one_record(**%s)" % kw2
   ut2 = w.fn("table.UserTable.lookupRecords")
   kw3 = ut2.node.args.kwarg.arg if ut2.node.args.kwarg else None
-  rets2 = H.returns_of(ut2.node)
-  ok = ok and len(rets2) == 1 and text(rets2[0].value) == "self.table.lookup_records(**%s)" % kw3
+  ok = ok and sole_return(ut2) == "self.table.lookup_records(**%s)" % kw3
   run.ob(R3, ut.qualname, "lookupOne -> lookup_one_record; lookupRecords -> lookup_records",
          "the formula-facing methods forward every keyword (key columns, order_by, sort_by) "
          "unchanged", ok, fi=ut.fi)
   go = w.fn("records.RecordSet.get_one")
-  rets = H.returns_of(go.node)
   flow = H.Flow(go)
-  ok = len(rets) == 1 and isinstance(rets[0].value, ast.Call) and \
-      text(rets[0].value.func) == "self._table.Record" and len(rets[0].value.args) >= 1
-  if ok:
-    rid = rets[0].value.args[0]
-    rs = flow.roots(rid, flow.node_of(rid))
-    first = [r for r in rs if r.kind == "param" and r.node == "self" and
-             r.path == (("attr", "_row_ids"), ("idx", 0))]
-    empty = [r for r in rs if r.kind == "const" and r.node.value == 0 and not r.path]
-    ok = len(rs) == 2 and len(first) == 1 and len(empty) == 1
-    # ... and the choice between them is the emptiness of the row list
-    if ok:
-      conds = [(x.test, x.body) for x in ast.walk(go.node) if isinstance(x, ast.IfExp)] + \
-          [(x.test, x.body[0].value) for x in ast.walk(go.node) if isinstance(x, ast.If) and
-           len(x.body) == 1 and isinstance(x.body[0], ast.Assign)]
-      if len(conds) != 1:
-        raise AnalysisError("RecordSet.get_one: cannot find the choice between first row and 0")
-      t, when_true = conds[0]
-      nonempty = text(t) in ("self._row_ids", "len(self._row_ids) > 0", "len(self._row_ids)",
-                             "len(self._row_ids) != 0")
-      isempty = text(t) in ("not self._row_ids", "len(self._row_ids) == 0")
-      if not (nonempty or isempty):
-        raise AnalysisError("RecordSet.get_one: unrecognised emptiness test %s" % short(t))
-      ok = (text(when_true) == "self._row_ids[0]") == nonempty
+  cases = [c for c in H.return_cases(go.node) if c.value is not None]
+  ok = bool(cases)
+  def nonempty(atoms):
+    """True/False when the atoms say the row list is non-empty / empty, else None."""
+    out = set()
+    for (t, p) in atoms:
+      tt = text(flow.du.inline(t))
+      if tt in ("self._row_ids", "len(self._row_ids)", "len(self._row_ids) > 0",
+                "len(self._row_ids) != 0", "len(self._row_ids) >= 1"):
+        out.add(p)
+      elif tt in ("len(self._row_ids) == 0", "len(self._row_ids) < 1"):
+        out.add(not p)
+    return out.pop() if len(out) == 1 else None
+  n_first = n_empty = 0
+  for c in cases:
+    rn = [x.id for x in go.cfg.nodes if x.stmt is c.stmt][0]
+    v = H.resolve(flow, c.value, rn)
+    if not (isinstance(v, ast.Call) and _xname(go, v.func) == "self._table.Record" and v.args):
+      ok = False
+      continue
+    for vc in H.value_cases(go, flow, v.args[0], flow.node_of(v)):
+      ne = nonempty(list(c.atoms) + list(vc.atoms))
+      tv = text(flow.du.inline(vc.value))
+      if tv == "self._row_ids[0]" and ne is True:
+        n_first += 1
+      elif isinstance(vc.value, ast.Constant) and vc.value.value == 0 and \
+          not isinstance(vc.value.value, bool) and ne is False:
+        n_empty += 1
+      else:
+        ok = False
   run.ob(R3, go.qualname, "self._table.Record(self._row_ids[0] if self._row_ids else 0, ...)",
          "the first row in the documented order, or the empty record (row id 0) when nothing "
-         "matches", ok, fi=go.fi)
+         "matches", ok and n_first >= 1 and n_empty >= 1, fi=go.fi)
 
 
 LK = "sandbox/grist/lookup.py"
